@@ -142,8 +142,13 @@ def main(tier, replay=None):
                                        trace_max=32)
     log(f"[C09] parse+format: {json.dumps({k: summary[k] for k in ('inputs', 'parsed', 'formatted', 'with_parser_diags', 'with_skipped_token', 'with_missing', 'distinct_traces', 'wall_ms')})}")
     n_crash = len([p for p in problems if p["kind"] == "crash"])
+    n_hang = len([p for p in problems if p["kind"] == "hang"])
     if summary["inputs"] + n_crash < n_inputs:
-        raise ToolError(f"harness processed {summary['inputs']} of {n_inputs} inputs")
+        if n_hang == 0:
+            raise ToolError(f"harness processed {summary['inputs']} of {n_inputs} inputs")
+        # confirmed hangs block their worker threads for good: the rest of the batch was not processed, the hangs
+        # themselves are reported below as violations
+        log(f"[C09] {n_hang} confirmed hang(s) stalled the batch: {summary['inputs']} of {n_inputs} inputs processed")
     mode_by_id = {}
     for p in problems:
         mode_by_id[p["id"]] = "format"
